@@ -249,6 +249,26 @@ def attr_tok(fn, conv) -> str:
 def dump(dev, depth: int, lines: List[str]) -> None:
     info = dev.device_info
     lines.append(f"odev {depth} {tok_str(dev.device_url)} " + " ".join(o(getattr(info, a)) for a in INFO_ATTRS))
+    svcs = list(dev.services.values())
+
+    def ident(xs, fn) -> str:
+        """position (by object identity) of what an accessor returns; `!` = it raised / returned None / a stranger"""
+        out = []
+        for x in xs:
+            try:
+                got = fn(x)
+            except Exception:  # noqa: BLE001 - a lookup that raises is an observation
+                got = None
+            pos = [i for i, y in enumerate(xs) if y is got]
+            out.append(str(pos[0]) if pos else "!")
+        return ",".join(out) or "~"
+
+    keys = lambda d: ",".join(tok_str(k) for k in d.keys()) or "~"  # noqa: E731
+    lines.append("okeys {} {} {} {}".format(
+        keys(dev.services), keys(dev.embedded_devices),
+        ident(svcs, lambda s: dev.service(s.service_type) if dev.has_service(s.service_type)
+              and dev.find_service(s.service_type) is dev.service(s.service_type) else None),
+        ident(svcs, lambda s: dev.service_id(s.service_id))))
     for i in dev.icons:
         lines.append(f"oicon {tok_str(i.mimetype)} {i.width} {i.height} {i.depth} {tok_str(i.url)}")
     for svc in dev.services.values():
@@ -256,6 +276,11 @@ def dump(dev, depth: int, lines: List[str]) -> None:
             lines.append("olink service.device")
         lines.append("osvc {} {} {} {} {}".format(tok_str(svc.service_id), tok_str(svc.service_type), tok_str(svc.control_url),
                                                 tok_str(svc.event_sub_url), tok_str(svc.scpd_url)))
+        svs, acts = list(svc.state_variables.values()), list(svc.actions.values())
+        lines.append("oskeys {} {} {} {}".format(
+            keys(svc.state_variables), keys(svc.actions),
+            ident(svs, lambda v: svc.state_variable(v.name) if svc.has_state_variable(v.name) else None),
+            ident(acts, lambda a: svc.action(a.name) if svc.has_action(a.name) else None)))
         for sv in svc.state_variables.values():
             if attr_tok(lambda: sv.service, lambda x: "1" if x is svc else "0") != "1":
                 lines.append("olink state_variable.service")
